@@ -129,6 +129,9 @@ def run_bundled(spec, rec, pint, pintload):
             off = conv.offset
             if isinstance(off, float):
                 fact("offset~", c, abs(off - float(mods["offset"].v)) <= 1e-13 * abs(off), True, offset=repr(off))
+            elif isinstance(off, Decimal):
+                fact("offset~", c, abs(F(off) - mods["offset"].v) <= abs(mods["offset"].v) * F(1, 10 ** 24), True,
+                     offset=repr(off))
             else:
                 fact("offset", c, F(off), mods["offset"].v)
         if "logbase" in mods:
